@@ -25,7 +25,7 @@
    Not proved: real queue order -- fairness is represented by the round schedule, the rate limiter by Tick; nodes being
    deleted.
    Recorded residue: K-AMB. *)
-From NIPAM Require Import Sys Alloc_proofs Sys_proofs Inv_proofs World_proofs Complete_proofs Path_proofs NoPanic_proofs Progress_proofs Store_proofs Conv_proofs Coh_proofs CohP_proofs Term_proofs Default_proofs ConvCC_proofs.
+From NIPAM Require Import Sys Alloc_proofs Sys_proofs Inv_proofs World_proofs Complete_proofs Path_proofs NoPanic_proofs Progress_proofs Store_proofs Conv_proofs Coh_proofs CohP_proofs Term_proofs Default_proofs ConvCC_proofs Just2_proofs.
 From Coq Require Import Lia.
 Open Scope N_scope.
 
@@ -240,3 +240,20 @@ Theorem C11_convergence_in_any_history :
             settled po lab (Nat.iter k (round po lab) (drain po lab w)).
 Proof. exact converge_in_any_history. Qed.
 Print Assumptions C11_convergence_in_any_history.
+
+(* ---------- the recorded residue K-AMB, as a statement about the model ---------- *)
+(* After all three writes of a node's pod CIDRs timed out (not applied) and the read-back failed too, the reservation is kept:
+   the only block of the only ClusterCIDR stays in use although no node holds it, and every later fault-free run of the node's
+   work item is refused -- the node is servable in the cluster's terms and is never served until the controller restarts.
+   (Convergence holds for the histories of the theorems above, whose rounds are fault-free from a quiet world.) *)
+Example C11_not_converging_after_failed_readback_K_AMB :
+  let po0 : parse_oracle := fun _ => Some [] in
+  let lab0 : label_oracle := fun k => [cl k] in
+  let ops := [UCreateCC (mkCCObj [99] (FOk (mkCidr V4 167772160 28)) FEmpty 4 (Some [107]) [] false 1 0 0);
+              Construct None None [UOk] []; StartInformers; ProcCC UOk; UCreateNode [110;49] [] []; DeliverNode;
+              ProcNode [PTimeoutNotApplied; PTimeoutNotApplied; PTimeoutNotApplied; PFail]; Tick; ProcNode [POk]; Tick; ProcNode [POk]] in
+  let w := run po0 lab0 init_world ops in
+  map (fun a => (an_name a, an_cidrs a)) (w_nodes w) = [([110;49], [])] /\
+  Just2_proofs.used_blocks w = [mkCidr V4 167772160 28] /\
+  map (fun x => ob_res (snd (fst x))) (trace po0 lab0 init_world ops) = [0; 1; 0; 1; 0; 0; 2; 0; 2; 0; 2].
+Proof. cbv zeta. repeat split; vm_compute; reflexivity. Qed.
